@@ -62,33 +62,37 @@ ASSUMPTIONS = [
 
 # sampled work per tier (totals over all shards)
 SIZES = {
-    'quick': {'numbers': 12000, 'texts': 6000, 'illegal': 8000, 'floats': 1500,
+    'quick': {'numbers': 60000, 'texts': 30000, 'illegal': 40000, 'floats': 6000,
               'bin_illegal_len': 4, 'small': {8: 3, 16: 2}},
-    'thorough': {'numbers': 400000, 'texts': 150000, 'illegal': 200000, 'floats': 30000,
+    'thorough': {'numbers': 800000, 'texts': 300000, 'illegal': 300000, 'floats': 50000,
                  'bin_illegal_len': 7, 'small': {8: 5, 16: 4}},
 }
+# exh:* and illegal:too-long (2048 binary texts of length 11) come from the exhaustive parts; the
+# others are set about 5x below what the sampled parts reach when they are not cut by the budget
 FLOORS = {
     'quick': {
         'exh:bin-range-numbers': 1024, 'exh:bin-texts': 4095, 'exh:small-texts': 584 + 272,
-        'round_trips': 20000, 'round_trips:negative': 8000, 'negative_renderings': 10000,
-        'places_calls': 100000, 'places:too-small->error': 20000, 'places:padded': 20000,
-        'compositions': 150000, 'numbers:oct:in-range': 1000, 'numbers:hex:in-range': 1000,
-        'numbers:oct:out-of-range': 100, 'numbers:hex:out-of-range': 100,
-        'illegal_texts_len<=10': 2000, 'illegal:whitespace': 200, 'illegal:underscore': 100,
-        'illegal:plus-sign': 100, 'illegal:minus-sign': 100, 'illegal:decimal-point': 100,
-        'illegal:radix-prefix': 100, 'illegal:digit-outside-base': 200, 'illegal:too-long': 2000,
-        'illegal:non-ascii-digit': 100, 'typed_cases': 300, 'ties': 60,
+        'round_trips': 60000, 'round_trips:negative': 25000, 'negative_renderings': 5000,
+        'places_calls': 200000, 'places:too-small->error': 100000, 'places:padded': 45000,
+        'compositions': 500000, 'numbers:oct:in-range': 5000, 'numbers:hex:in-range': 5000,
+        'numbers:oct:out-of-range': 1000, 'numbers:hex:out-of-range': 1000,
+        'legal_texts': 6000, 'legal_texts:negative': 1500,
+        'illegal_texts_len<=10': 7000, 'illegal:whitespace': 2500, 'illegal:underscore': 500,
+        'illegal:plus-sign': 500, 'illegal:minus-sign': 500, 'illegal:decimal-point': 500,
+        'illegal:radix-prefix': 1300, 'illegal:digit-outside-base': 1100, 'illegal:too-long': 2048,
+        'illegal:non-ascii-digit': 1000, 'typed_cases': 375, 'ties': 1500,
     },
     'thorough': {
         'exh:bin-range-numbers': 1024, 'exh:bin-texts': 4095, 'exh:small-texts': 37448 + 69904,
-        'round_trips': 500000, 'round_trips:negative': 200000, 'negative_renderings': 200000,
-        'places_calls': 2000000, 'compositions': 3000000,
-        'numbers:oct:in-range': 30000, 'numbers:hex:in-range': 30000,
-        'numbers:oct:out-of-range': 3000, 'numbers:hex:out-of-range': 3000,
-        'illegal_texts_len<=10': 40000, 'illegal:whitespace': 5000, 'illegal:underscore': 2000,
-        'illegal:plus-sign': 2000, 'illegal:minus-sign': 2000, 'illegal:decimal-point': 2000,
-        'illegal:radix-prefix': 2000, 'illegal:digit-outside-base': 5000, 'illegal:too-long': 5000,
-        'illegal:non-ascii-digit': 2000, 'typed_cases': 300, 'ties': 1500,
+        'round_trips': 800000, 'round_trips:negative': 300000, 'negative_renderings': 60000,
+        'places_calls': 2500000, 'places:too-small->error': 1200000, 'places:padded': 450000,
+        'compositions': 6000000, 'numbers:oct:in-range': 60000, 'numbers:hex:in-range': 60000,
+        'numbers:oct:out-of-range': 12000, 'numbers:hex:out-of-range': 12000,
+        'legal_texts': 150000, 'legal_texts:negative': 15000,
+        'illegal_texts_len<=10': 50000, 'illegal:whitespace': 18000, 'illegal:underscore': 4000,
+        'illegal:plus-sign': 4000, 'illegal:minus-sign': 4000, 'illegal:decimal-point': 4000,
+        'illegal:radix-prefix': 7000, 'illegal:digit-outside-base': 10000, 'illegal:too-long': 2048,
+        'illegal:non-ascii-digit': 8000, 'typed_cases': 375, 'ties': 10000,
     },
 }
 
@@ -516,11 +520,22 @@ CHECKS = {'number': check_number, 'text': check_text, 'to_dec': check_typed_to_d
           'from_dec': check_typed_from_dec}
 
 
-def do(ctx, case, exhaustive=False, nontrivial=True):
+SEEN = set()
+
+
+def do(ctx, case, exhaustive=False, nontrivial=True, counter=None):
+    """run one case if it belongs to this shard (partition by the hash of its signature, so that a case
+    reached by two generators is executed once over all shards); returns the Case or None"""
     sig = (case['kind'], case['base'], repr(case.get('n', case.get('s', case.get('v')))))
+    h = h64(sig)
+    if not ctx.mine(h) or h in SEEN:
+        return None
+    SEEN.add(h)
     tie = want_tie(sig)
     c = CHECKS[case['kind']](ctx, case, tie)
     ctx.case(None if exhaustive else sig, nontrivial=nontrivial)
+    if counter:
+        ctx.count(counter)
     if tie:
         ctx.count('tied_cases')
     if (ctx.evaluations % 997 == 1 and not c.keys) or (tie and len(ctx.samples) < 2):
@@ -668,64 +683,42 @@ def sample_float(rng, base):
 
 def run(ctx):
     size = SIZES[ctx.tier]
-    i = 0
-
-    def mine():
-        nonlocal i
-        i += 1
-        return ctx.mine(i)
-
     # A. the whole binary range (both tiers)
     for n in range(R.lo(2), R.hi(2) + 1):
-        if mine():
-            do(ctx, {'kind': 'number', 'base': 2, 'n': n}, exhaustive=True)
-            ctx.count('exh:bin-range-numbers')
+        do(ctx, {'kind': 'number', 'base': 2, 'n': n}, exhaustive=True, counter='exh:bin-range-numbers')
     # B. every binary text of length 0..11 (both tiers)
     for s in all_texts(2, 11):
-        if mine():
-            do(ctx, {'kind': 'text', 'base': 2, 's': s}, exhaustive=True, nontrivial=bool(s))
-            ctx.count('exh:bin-texts')
-    # C. boundary numbers of every base (in range and out of range)
-    for base in R.BASES:
-        for n in boundary_numbers(base):
-            if mine():
-                do(ctx, {'kind': 'number', 'base': base, 'n': n})
-                ctx.count('boundary_numbers')
-    # D. short octal / hex texts exhaustively, boundary texts
+        do(ctx, {'kind': 'text', 'base': 2, 's': s}, exhaustive=True, nontrivial=bool(s),
+           counter='exh:bin-texts')
+    # C. short octal / hex texts exhaustively
     for base in (8, 16):
         for s in all_texts(base, size['small'][base], 1):
-            if mine():
-                do(ctx, {'kind': 'text', 'base': base, 's': s}, exhaustive=True)
-                ctx.count('exh:small-texts')
+            do(ctx, {'kind': 'text', 'base': base, 's': s}, exhaustive=True, counter='exh:small-texts')
+    # D. boundary numbers (in range and out of range) and boundary texts of every base
     for base in R.BASES:
+        for n in boundary_numbers(base):
+            do(ctx, {'kind': 'number', 'base': base, 'n': n}, counter='boundary_numbers')
         for s in boundary_texts(base):
-            if mine():
-                do(ctx, {'kind': 'text', 'base': base, 's': s})
-                ctx.count('boundary_texts')
+            do(ctx, {'kind': 'text', 'base': base, 's': s}, counter='boundary_texts')
     # E. one illegal character at every position / radix prefixes: all short binary stems, listed stems
     for stem in all_texts(2, size['bin_illegal_len']):
         for s in insertions(2, stem):
-            if mine():
-                do(ctx, {'kind': 'text', 'base': 2, 's': s})
-                ctx.count('exh:bin-illegal')
+            do(ctx, {'kind': 'text', 'base': 2, 's': s}, counter='exh:bin-illegal')
     for base in R.BASES:
         for stem in LISTED_STEMS[base]:
             for s in insertions(base, stem):
-                if mine():
-                    do(ctx, {'kind': 'text', 'base': base, 's': s})
-                    ctx.count('listed-illegal')
+                do(ctx, {'kind': 'text', 'base': base, 's': s}, counter='listed-illegal')
     # F. typed inputs
     for base in R.BASES:
         for v in TYPED_TO_DEC:
-            if mine():
-                do(ctx, {'kind': 'to_dec', 'base': base, 'v': v}, nontrivial=v is not None)
+            do(ctx, {'kind': 'to_dec', 'base': base, 'v': v}, nontrivial=v is not None)
         for v in typed_from_dec_values(base):
-            if mine():
-                do(ctx, {'kind': 'from_dec', 'base': base, 'v': v}, nontrivial=v not in (None, ''))
+            do(ctx, {'kind': 'from_dec', 'base': base, 'v': v}, nontrivial=v not in (None, ''))
     if ctx.shard == 0:
         observe_places(ctx)
 
-    # G. seeded samples (every shard its own stream); ended early only by the budget
+    # G. seeded samples (every shard its own stream, a sampled case is kept by the shard that owns its
+    #    signature); ended early only by the budget
     rng = ctx.rng
     per = {k: max(1, size[k] // ctx.nshards) for k in ('numbers', 'texts', 'illegal', 'floats')}
     plan = ([('number', 8), ('number', 16)] * (per['numbers'] // 2) +
@@ -737,15 +730,17 @@ def run(ctx):
         if ctx.out_of_time():
             ctx.count('sampling_cut_by_budget')
             break
-        if kind == 'number':
-            do(ctx, {'kind': 'number', 'base': base, 'n': sample_number(rng, base)})
-        elif kind == 'text':
-            do(ctx, {'kind': 'text', 'base': base, 's': sample_text(rng, base)})
-        elif kind == 'illegal':
-            do(ctx, {'kind': 'text', 'base': base, 's': sample_illegal(rng, base)})
-        else:
-            do(ctx, {'kind': 'from_dec', 'base': base, 'v': sample_float(rng, base)})
-        ctx.count('sampled:' + kind)
+        for _attempt in range(400):
+            if kind == 'number':
+                case = {'kind': 'number', 'base': base, 'n': sample_number(rng, base)}
+            elif kind == 'text':
+                case = {'kind': 'text', 'base': base, 's': sample_text(rng, base)}
+            elif kind == 'illegal':
+                case = {'kind': 'text', 'base': base, 's': sample_illegal(rng, base)}
+            else:
+                case = {'kind': 'from_dec', 'base': base, 'v': sample_float(rng, base)}
+            if do(ctx, case, counter='sampled:' + kind) is not None:
+                break
 
 
 def replay(ctx, case):
